@@ -9,6 +9,7 @@ symbols of the sort).  One reply per command; every command and reply is
 appended to a JSON-lines log.
 
 Usage: refsolver.py [--log FILE] [--delay-ms N] [--mode MODE] [--name NAME]
+                    [--plan FILE]   (JSON {name: {delay, mode}}, re-read at every check-sat)
 MODE: ok | unknown | error | crash | exit | hang | garbage | slowstart
 """
 import argparse
@@ -207,6 +208,31 @@ class Solver(object):
             if head == 'check-sat':
                 self.reader.command(c)
                 self.checks += 1
+                if a.plan:
+                    # per-query delay / mode set by the harness (C19)
+                    try:
+                        with open(a.plan) as f:
+                            pl = json.load(f).get(a.name)
+                        if isinstance(pl, list):
+                            # several members share the name: each takes
+                            # the next free slot of the list
+                            got = None
+                            for i, cand in enumerate(pl):
+                                try:
+                                    fd = os.open('%s.claim.%s.%d' % (
+                                        a.plan, a.name, i),
+                                        os.O_CREAT | os.O_EXCL | os.O_WRONLY)
+                                    os.close(fd)
+                                    got = cand
+                                    break
+                                except OSError:
+                                    continue
+                            pl = got
+                        if pl:
+                            a.delay_ms = pl.get('delay', a.delay_ms)
+                            a.mode = pl.get('mode', a.mode)
+                    except (OSError, ValueError):
+                        pass
                 if a.delay_ms:
                     time.sleep(a.delay_ms / 1000.0)
                 if a.mode == 'crash':
@@ -321,6 +347,7 @@ def main():
     ap.add_argument('--delay-ms', type=int, default=0)
     ap.add_argument('--mode', default='ok')
     ap.add_argument('--name', default='ref')
+    ap.add_argument('--plan', default=None)
     a = ap.parse_args()
     if a.mode == 'slowstart':
         time.sleep(0.3)
